@@ -540,3 +540,7 @@ def run(ck):
     ck.attempt(rule_binding)
     ck.attempt(rule_active)
     ck.attempt(rule_prev)
+    # the per-station facts a scheduler asks for (maximum / minimum pilot, allowable levels, voltage, phase) are those of the station
+    # it names (shared with C13)
+    from .c13 import rule_accessors
+    ck.attempt(rule_accessors, rid="C05.R8")
